@@ -66,6 +66,9 @@ impl Case {
                 }
             }
         }
+        if self.fault == "relative-image" {
+            s.image = Some("logo.png".into());
+        }
         if self.fault == "after-earlier-write" && self.k == 1 {
             if self.png {
                 s.fit_width = Some(300);
@@ -145,6 +148,12 @@ pub fn jobs(ctx: &Ctx) -> Vec<Case> {
                     }
                     push("exact-length-short-writes", 0, 4, 4096);
                     push("exact-length-short-writes", 0, 7, 65536);
+                }
+                // an embedded image given as a RELATIVE path while the output goes to another directory: a real image of
+                // that name lies in the working directory (k=0), next to the output file (k=1), or a different one in
+                // both places (k=2) - whatever the in-memory rendering shows, the file must show the same
+                for kk in 0..3 {
+                    push("relative-image", 0, kk, 0);
                 }
                 // the same process has just written another rendering (same / nearly the same / bigger / recoloured)
                 for kk in 0..4 {
@@ -237,12 +246,44 @@ pub fn observe(ctx: &Ctx, st: &mut Stats, c: &Case, idx: usize) {
             let _ = std::os::unix::fs::symlink(&real, &p);
             p
         }
+        "relative-image" => {
+            // two different real PNG files (rendered by the crate itself from two small symbols)
+            let logo = |seed: u8, colour: [u8; 3]| -> Option<Vec<u8>> {
+                match adapter::build(&Config { input: vec![b'0' + seed; 3], mode: None, level: None, version: Some(1), mask: None }) {
+                    Outcome::Ok(q) => {
+                        let mut b = fast_qr::convert::image::ImageBuilder::default();
+                        fast_qr::convert::Builder::module_color(&mut b, colour);
+                        b.to_bytes(&q).ok()
+                    }
+                    _ => None,
+                }
+            };
+            let (a, b) = match (logo(1, [200, 0, 0]), logo(2, [0, 0, 200])) {
+                (Some(a), Some(b)) => (a, b),
+                _ => {
+                    st.inconclusive("relative-image: cannot render the two logo files".to_string());
+                    return;
+                }
+            };
+            let sub = dir.join("exports").join("2024");
+            let _ = std::fs::create_dir_all(&sub);
+            if c.k != 1 {
+                let _ = std::fs::write(dir.join("logo.png"), &a);
+            }
+            if c.k != 0 {
+                let _ = std::fs::write(sub.join("logo.png"), &b);
+            }
+            sub.join(format!("out.{ext}"))
+        }
         _ => dir.join(format!("out.{ext}")),
     };
     let log = dir.join("shim.log");
     let exe = std::env::current_exe().expect("current_exe");
     let mut cmd = Command::new(exe);
     cmd.arg("c19-child").arg(c.to_json().to_string()).arg(&target).stdout(Stdio::piped()).stderr(Stdio::piped());
+    if c.fault == "relative-image" {
+        cmd.current_dir(&dir);
+    }
     let injected = matches!(c.fault.as_str(), "create-fails" | "write-fails" | "short-writes" | "eintr" | "existing-longer-short-writes" | "exact-length-short-writes");
     if injected {
         let mode = match c.fault.as_str() {
@@ -332,6 +373,9 @@ pub fn observe(ctx: &Ctx, st: &mut Stats, c: &Case, idx: usize) {
                 }
                 if c.fault == "after-earlier-write" {
                     st.count("writes_after_an_earlier_write_in_the_same_process_exact", 1);
+                }
+                if c.fault == "relative-image" {
+                    st.count("relative_image_references_with_output_in_another_directory_exact", 1);
                 }
                 if c.fault.starts_with("existing-") {
                     st.count("preexisting_destinations_overwritten_exactly", 1);
@@ -450,7 +494,7 @@ pub fn run(ctx: &Ctx) -> Report {
     st.sets.remove("unreached");
     let mut rep = Report::new(
         st,
-        "cases = {SVG, PNG} x versions {1,7,40} (thorough: all 40) x option sets x fault classes: none; destination already exists (6 MiB longer file, 5-byte shorter file, symbolic link to a longer file, longer file + short writes): Ok must leave exactly the rendering, no stale tail; SVG documents padded (through the image string) to exactly 4096, 8191, 8192, 8193, 16384, 32768, 65535, 65536, 65537, 131072, 196608, 262144 bytes, also under short writes; the same process has just written another rendering to the same or to another path (identical / same symbol with one size-deciding option changed / bigger symbol / other colour); real faults: missing directory (ENOENT), path is a directory (EISDIR), parent is a regular file (ENOTDIR), over-long name (ENAMETOOLONG), paths without a file-name component (dir/., dir/sub/.., dir/x/.., the empty path), /dev/full (ENOSPC at write time); injected by an LD_PRELOAD shim scoped to the case's scratch directory: create fails with EACCES/EROFS/EMFILE, first write fails with ENOSPC/EIO/EDQUOT, k-th write of a chunked stream fails (k in 2,3,5,9; 1024-byte chunks; 7-byte chunks), every write short (7 / 4096 bytes), EINTR on every other write (with and without short writes); each case runs to_file in a child process; the shim logs every interception and every fault actually DELIVERED; oracle: Ok(()) => the file's bytes equal the in-memory rendering computed in the same child; a delivered hard fault => Err(_) converted through ConvertError::from, normal exit, no panic; only benign perturbations => Ok with full content; a configured fault that was never reached is counted separately and is not a pass for the error half; distinct key = case; every case non-trivial",
+        "cases = {SVG, PNG} x versions {1,7,40} (thorough: all 40) x option sets x fault classes: none; destination already exists (6 MiB longer file, 5-byte shorter file, symbolic link to a longer file, longer file + short writes): Ok must leave exactly the rendering, no stale tail; SVG documents padded (through the image string) to exactly 4096, 8191, 8192, 8193, 16384, 32768, 65535, 65536, 65537, 131072, 196608, 262144 bytes, also under short writes; an embedded image given as a relative path with a real image of that name in the working directory, next to the output file (another directory), or different ones in both; the same process has just written another rendering to the same or to another path (identical / same symbol with one size-deciding option changed / bigger symbol / other colour); real faults: missing directory (ENOENT), path is a directory (EISDIR), parent is a regular file (ENOTDIR), over-long name (ENAMETOOLONG), paths without a file-name component (dir/., dir/sub/.., dir/x/.., the empty path), /dev/full (ENOSPC at write time); injected by an LD_PRELOAD shim scoped to the case's scratch directory: create fails with EACCES/EROFS/EMFILE, first write fails with ENOSPC/EIO/EDQUOT, k-th write of a chunked stream fails (k in 2,3,5,9; 1024-byte chunks; 7-byte chunks), every write short (7 / 4096 bytes), EINTR on every other write (with and without short writes); each case runs to_file in a child process; the shim logs every interception and every fault actually DELIVERED; oracle: Ok(()) => the file's bytes equal the in-memory rendering computed in the same child; a delivered hard fault => Err(_) converted through ConvertError::from, normal exit, no panic; only benign perturbations => Ok with full content; a configured fault that was never reached is counted separately and is not a pass for the error half; distinct key = case; every case non-trivial",
     );
     rep.level = "fault_enumeration";
     rep.expected_sets = vec![("fault_classes", 21), ("fault_class_x_format", 40)];
